@@ -229,3 +229,76 @@ def ser_filtered(vals, slots, idx, pos, n):
                            modifies=["InitField.slots", "InitSlot.src", "InitSlot.sname", "InitSlot.filled", "TensorLike.name", "$alloc"],
                            body_end=no_slot)},
         ensures=[f"ser_filtered(g_vals, {S}, g_idx, g_pos, len(g_vals))"], raises_default=[], modifies=None, assert_mode="raise"))
+
+
+def add_graph_io_target(eng):
+    """serialize_graph_into, graph inputs and outputs (C02 / C03 `same ... connectivity`; C05 speaks of `the number and order of
+    graph outputs and of non-initializer inputs`): graph_proto.input holds exactly one ValueInfoProto per graph input, in order,
+    each filled by serialize_value_into from that input; the same for graph_proto.output and the graph outputs.  Everything the
+    function does in between (initializers, nodes, value_info - which share serialize_value_into) leaves the two fields alone: the
+    invariants are carried through all five loops."""
+    import z3
+    from pyvc.core import Exc
+    from pyvc.sem_stmt import LoopSpec
+    from pyvc.types import BOOL, NULL, TSeq, VBool, VFunc, VNone, VOpaque, VRef, VSeq
+    schema.core_ir(eng)
+    V = TRef("Value")
+    eng.add_class(ClassDecl("VSlot", fields={"src": V, "filled": BOOL}))
+    eng.add_class(ClassDecl("VField", fields={"slots": TSeq(TRef("VSlot"))}))
+    eng.add_class(ClassDecl("GraphProtoIO", fields={"name": STR, "doc_string": STR, "input": TRef("VField"), "output": TRef("VField"),
+                                                    "value_info": TRef("VField")}))
+    eng.add_class(ClassDecl("GraphLikeIO", fields={"inputs": TSeq(V), "outputs": TSeq(V)}))
+
+    def m_add(e, p, args, kwargs, node):
+        slot = e.new_object(p, "VSlot")
+        e.write_field(p, slot, "filled", VBool(False))
+        s = e.read_field(p, args[0], "slots")
+        e.write_field(p, args[0], "slots", VSeq(s.len + 1, [z3.Store(a, s.len, c) for a, c in zip(s.arrs, slot.comps())], s.elem))
+        return [(p, slot)]
+    eng.method_models = dict(getattr(eng, "method_models", {}) or {})
+    eng.method_models[("VField", "add")] = FnDecl("VField.add", "builtin", impl=m_add)
+
+    def ser_value(e, p, args, kwargs, node):
+        slot = args[0]
+        v = kwargs.get("from_", args[1] if len(args) > 1 else None)
+        if not (isinstance(slot, VRef) and slot.cls == "VSlot") or not (isinstance(v, VRef) and v.cls == "Value"):
+            return [(p, VOpaque("serialize_value_into")), (p.copy(), Exc("AnyException", f"L{node.lineno}:serialize_value_into"))]
+        q = p.copy()
+        e.write_field(p, slot, "src", v)
+        e.write_field(p, slot, "filled", VBool(True))
+        return [(p, VNone()), (q, Exc("AnyException", f"L{node.lineno}:serialize_value_into"))]
+
+    def known(name):
+        def call(e, p, args, kwargs, node):
+            return [(p, VOpaque("result of " + name)), (p.copy(), Exc("AnyException", f"L{node.lineno}:{name}"))]
+        return VFunc("py", call, name)
+
+    def setup(e, p, env):
+        e.lenient = True
+        e.global_overrides = dict(e.global_overrides)
+        e.global_overrides[(SER, "serialize_value_into")] = VFunc("py", ser_value, "serialize_value_into")
+        for name in ("serialize_tensor_into", "_should_create_value_info_for_value", "serialize_node_into", "_serialize_metadata_props_into",
+                     "_maybe_add_quantization_annotation"):
+            e.global_overrides[(SER, name)] = known(name)
+    eng.spec_fn('''
+def io_prefix(slots, vals, n):
+    return (len(slots) == n and
+            forall(lambda m=int: implies(0 <= m and m < n, nonnull(slots[m]) and allocated(slots[m]) and slots[m].filled and slots[m].src is vals[m])) and
+            forall(lambda m=int, k2=int: implies(0 <= m and m < k2 and k2 < n, slots[m] is not slots[k2])))
+''')
+    IN, OUT = "graph_proto.input.slots", "graph_proto.output.slots"
+    wf = ["nonnull(graph_proto) and nonnull(from_) and nonnull(graph_proto.input) and nonnull(graph_proto.output) and nonnull(graph_proto.value_info)",
+          "graph_proto.input is not graph_proto.output and graph_proto.input is not graph_proto.value_info and "
+          "graph_proto.output is not graph_proto.value_info",
+          "forall(lambda j=int: implies(0 <= j and j < len(from_.inputs), nonnull(from_.inputs[j])))",
+          "forall(lambda j=int: implies(0 <= j and j < len(from_.outputs), nonnull(from_.outputs[j])))"]
+    MOD = ["VField.slots", "VSlot.src", "VSlot.filled", "$alloc"]
+    ins_done = f"io_prefix({IN}, from_.inputs, len(from_.inputs))"
+    mid = LoopSpec(invariant=wf + [ins_done, f"len({OUT}) == 0"], modifies=MOD)
+    eng.add_target(Target("serialize_graph_into[inputs/outputs]", mod=SER, qual="serialize_graph_into", setup=setup,
+        params=dict(graph_proto=TRef("GraphProtoIO"), from_=TRef("GraphLikeIO"), model_ir_version=TOpt(INT_)),
+        requires=wf + [f"len({IN}) == 0 and len({OUT}) == 0"],
+        loops={0: LoopSpec(invariant=wf + [f"io_prefix({IN}, from_.inputs, k)", "seq_eq(it, from_.inputs)", f"len({OUT}) == 0"], modifies=MOD),
+               2: mid, 3: mid, 4: mid,
+               5: LoopSpec(invariant=wf + [ins_done, f"io_prefix({OUT}, from_.outputs, k)", "seq_eq(it, from_.outputs)"], modifies=MOD)},
+        ensures=[ins_done, f"io_prefix({OUT}, from_.outputs, len(from_.outputs))"], raises_default=[], modifies=None, assert_mode="raise"))
